@@ -1,5 +1,6 @@
 import Ecal.Model.ParserWF
 import Ecal.Model.TokenChannel
+import Ecal.Gen.C07
 import Ecal.Lemmas.ParserMain
 import Ecal.Lemmas.ParserShape
 import Ecal.Lemmas.ParserShapeS
@@ -202,26 +203,41 @@ example : WellFormed (.mk "" (some ⟨26, 4, [123], false, false, 0, 1, 5⟩) 0 
     okTree (.mk "" (some ⟨26, 4, [123], false, false, 0, 1, 5⟩) 0 .none .none
       [some (.mk "statements" none 0 .none .none [] [])] []) = false := by decide
 
-/-! ## The token channel: nothing of the parser is left at the return -/
+/-! ## The token channel: nothing of the parser is left at the return
+
+The transition system (`Model/TokenChannel.lean`) is tied to the source by the extracted synchronisation
+skeleton (`Gen/C07.lean`, regenerated on every run): package parser has exactly one `go` statement (in `Lex`,
+starting `(*lexer).run`), `close(l.tokens)` is the last statement of `run`, `ParseWithRuntime` defers
+`p.tokens.drain()` and `drain` is `for range b.tokens {}` in the calling goroutine. -/
+
+/-- **source_selects_sync.** The extracted skeleton selects the synchronous-drain transition system, with one
+    producer goroutine whose last channel operation is the close. (A `decide` over generated facts: if the
+    source changes — e.g. the drain is moved into a goroutine — this theorem no longer checks.) -/
+theorem source_selects_sync :
+    Ecal.Gen.C07.ok = true ∧ modeOf Ecal.Gen.C07.drainMode = some Mode.sync ∧ Ecal.Gen.C07.goStatements = 1 ∧
+    Ecal.Gen.C07.goWhere = "Lex" ∧ Ecal.Gen.C07.closeLastInRun = true ∧ Ecal.Gen.C07.deferDrain = true := by decide
 
 /-- measure of what is still to happen once the consumer has stopped parsing -/
 def todo (s : St) : Nat :=
-  s.toSend + (if s.prod = .running then 1 else 0) + (if s.cons = .draining then 1 else 0)
+  s.toSend + (match s.prod with | .running => 2 | .closed => 1 | .terminated => 0) +
+  (if s.cons = .draining then 1 else 0)
 
-/-- invariant of the synchronous drain: no helper ever exists, and a returned call means a terminated producer -/
-def SyncInv (s : St) : Prop := s.helper = false ∧ (s.cons = .returned → s.prod = .terminated)
+/-- invariant of the synchronous drain: no helper ever exists, and a returned call means a closed channel -/
+def SyncInv (s : St) : Prop := s.helper = false ∧ (s.cons = .returned → s.prod ≠ .running)
 
 theorem step_inv (s s' : St) (e : Ev) (h : step .sync s e = some s') (hi : SyncInv s) : SyncInv s' := by
   obtain ⟨hh, hr⟩ := hi
   cases e <;> simp only [step] at h <;> (repeat' split at h) <;>
     simp_all [SyncInv] <;> (subst h; simp_all)
 
-/-- **no_producer_left.** In the channel model of the code as it is (deferred SYNCHRONOUS drain): for every
-    number of tokens, every interleaving and every point at which the parse function stops (any event
-    sequence is allowed, so the consumer may stop after any number of receives), in every state in which
-    `ParseWithRuntime` has returned — in particular AT the return event — the lexer goroutine has
-    terminated and no other goroutine of the parser exists (`clean`). -/
-theorem no_producer_left (n : Nat) (es : List Ev) (s : St)
+/-- **producer_done_at_return** (was `no_producer_left`). In the transition system selected by the source
+    (`source_selects_sync`): for every number of tokens, every interleaving and every point at which the parse
+    function stops (any event sequence is allowed, so the consumer may stop after any number of receives), in
+    every state in which `ParseWithRuntime` has returned — in particular AT the return event — no helper
+    goroutine exists and the lexer goroutine is past `close(l.tokens)`, its last statement (`clean`). The drain
+    loop's exit condition is "the channel is observed closed", NOT "the producer is gone": that the two
+    coincide up to the producer's own final `exit` step is the content. -/
+theorem producer_done_at_return (n : Nat) (es : List Ev) (s : St)
     (h : exec .sync (init n) es = some s) (hr : s.cons = .returned) : clean s = true := by
   have gen : ∀ (es : List Ev) (s0 s : St), SyncInv s0 → exec .sync s0 es = some s → SyncInv s := by
     intro es
@@ -236,6 +252,18 @@ theorem no_producer_left (n : Nat) (es : List Ev) (s : St)
   have := gen es (init n) s (by simp [SyncInv, init]) h
   simp [clean, this.1, this.2 hr]
 
+/-- **producer_exits_alone.** From a clean state the only thing that can still happen is the producer's own
+    `exit` (no partner needed), after which nothing of the parser can move: the goroutine is gone. -/
+theorem producer_exits_alone (s : St) (hc : clean s = true) (hr : s.cons = .returned) :
+    (s.prod = .terminated ∧ canMove .sync s = false) ∨
+    (∃ s', step .sync s .exit = some s' ∧ s'.prod = .terminated ∧ canMove .sync s' = false ∧
+      ∀ e, e ≠ .exit → step .sync s e = none) := by
+  obtain ⟨n, p, c, hp⟩ := s
+  simp at hr; subst hr
+  cases p <;> cases hp <;> simp_all [clean, canMove, allEv, step]
+  intro e he
+  cases e <;> simp_all [step]
+
 example : ∃ s, exec .sync (init 3) [.recv, .stop, .drainRecv, .drainRecv, .close, .drainEnd] = some s ∧
     s.cons = .returned := by decide
 
@@ -246,7 +274,7 @@ theorem drain_progress (s : St) (h : s.cons ≠ .returned) : canMove .sync s = t
   cases c <;> cases p <;> cases n <;> simp_all [canMove, allEv, step]
 
 /-- **the call does return (bound).** Once the consumer is in the deferred drain (and no helper exists, which
-    is invariant), every schedule has at most `toSend + 2` further steps (then `ParseWithRuntime` has
+    is invariant), every schedule has at most `toSend + 3` further steps (then `ParseWithRuntime` has
     returned and nothing is left to run). -/
 theorem drain_bounded (es : List Ev) (s s' : St) (hc : s.cons ≠ .parsing) (hh : s.helper = false)
     (h : exec .sync s es = some s') : es.length + todo s' ≤ todo s := by
@@ -259,7 +287,7 @@ theorem drain_bounded (es : List Ev) (s s' : St) (hc : s.cons ≠ .parsing) (hh 
       have key : s1.cons ≠ .parsing ∧ s1.helper = false ∧ todo s1 + 1 ≤ todo s := by
         obtain ⟨n, p, c, hp⟩ := s
         cases e <;> simp only [step] at h1 <;> (repeat' split at h1) <;>
-          simp_all [todo] <;> (subst h1; simp_all <;> omega)
+          simp_all [todo] <;> (subst h1; simp_all <;> (try split) <;> omega)
       have := ih s1 key.1 key.2.1 h
       simp only [List.length_cons]; omega
     · simp at h
@@ -279,5 +307,31 @@ theorem async_drain_outlives_call :
     ∃ s, exec .async (init 2) [.recv, .stop] = some s ∧ s.cons = .returned ∧ s.prod = .running ∧
       s.helper = true ∧ clean s = false ∧
       (∃ s', exec .async s [.helpRecv, .close, .helpEnd] = some s' ∧ clean s' = true) := by decide
+
+/-! ## The grammar table of the model is the one in the source -/
+
+def nudName : Ecal.Parse.Nud → String
+  | .none => "nil" | .term => "ndTerm" | .identifier => "ndIdentifier" | .inner => "ndInner" | .list => "ndList"
+  | .map => "ndMap" | .prefix => "ndPrefix" | .import_ => "ndImport" | .sink => "ndSkink" | .func => "ndFunc"
+  | .return_ => "ndReturn" | .guard => "ndGuard" | .loop => "ndLoop" | .try_ => "ndTry" | .mutex => "ndMutex"
+  | .block => "parseInnerStatements"
+def ledName : Ecal.Parse.Led → String | .none => "nil" | .infix => "ldInfix"
+
+/-- one entry of the extracted astNodeMap agrees with `Parse.table` -/
+def entryAgrees (e : Nat × String × Nat × String × String) : Bool :=
+  match table e.1 with
+  | some (nm, b, x, l) => nm = e.2.1 && b = e.2.2.1 && nudName x = e.2.2.2.1 && ledName l = e.2.2.2.2
+  | none => false
+
+/-- **table_matches_source.** `Parse.table` (the model's grammar table) is exactly the `astNodeMap` of the tree
+    under test, extracted by `harness C07 -tool gen` on every run: every extracted entry has the same node
+    name, binding and null/left denotation in the model, the model has no further entry (ids < 200), the
+    block-start brace entry is the one `instanceOf` uses, and the ids of the error / comment tokens are the
+    ones `nextNode` / `splitComments` test. -/
+theorem table_matches_source :
+    Ecal.Gen.C07.ok = true ∧ Ecal.Gen.C07.astNodeMap.all entryAgrees = true ∧
+    (List.range 200).all (fun id => (table id).isNone || Ecal.Gen.C07.astNodeMap.any (·.1 = id)) = true ∧
+    Ecal.Gen.C07.blockBrace = (T_LBRACE, "", 0, "nil", "nil") ∧
+    Ecal.Gen.C07.tokenError = 0 ∧ Ecal.Gen.C07.tokenPreComment = 3 ∧ Ecal.Gen.C07.tokenPostComment = 4 := by decide
 
 end Ecal.Props.C07
